@@ -382,4 +382,576 @@ theorem pollTimers_settled (T now : Nat) (tr : Tracker) (h : TrackerOk T now tr)
   · exact ⟨d, by simp [Timer.start, hd], hlt⟩
   · exact ⟨now + t.timeout, by simp [Timer.start, hn], by omega⟩
 
+/-! ### connection contexts: which ids, which handles -/
+
+/-- Connection `c` is in one of the slots. -/
+def ctxHas (ctx : KCtx) (c : Nat) : Prop := ctx.primary.id = c ∨ ∃ h, ctx.secondary = some h ∧ h.id = c
+
+def Svc.hasId (s : Svc) (c : Nat) : Prop := ∃ e ∈ s.conns, ctxHas e.2 c
+
+/-- Same connections in the same slots (activity flags may differ). -/
+def SameIds (a b : KCtx) : Prop :=
+  b.primary.id = a.primary.id ∧ b.secondary.map (·.id) = a.secondary.map (·.id)
+
+theorem SameIds.has {a b : KCtx} (h : SameIds a b) (c : Nat) : ctxHas b c ↔ ctxHas a c := by
+  obtain ⟨⟨pa, aa⟩, sa⟩ := a
+  obtain ⟨⟨pb, ab⟩, sb⟩ := b
+  obtain ⟨h1, h2⟩ := h
+  simp only at h1 h2
+  subst h1
+  cases sa <;> cases sb <;> simp_all [ctxHas]
+
+theorem SameIds.distinct {a b : KCtx} (h : SameIds a b) (hd : Distinct a) : Distinct b := by
+  obtain ⟨⟨pa, aa⟩, sa⟩ := a
+  obtain ⟨⟨pb, ab⟩, sb⟩ := b
+  obtain ⟨h1, h2⟩ := h
+  simp only at h1 h2
+  subst h1
+  cases sa <;> cases sb <;> simp_all [Distinct]
+
+theorem SameIds.rfl' (a : KCtx) : SameIds a a := ⟨rfl, rfl⟩
+
+theorem SameIds.trans {a b c : KCtx} (h1 : SameIds a b) (h2 : SameIds b c) : SameIds a c :=
+  ⟨h2.1.trans h1.1, h2.2.trans h1.2⟩
+
+theorem sameIds_downgrade (ctx : KCtx) (c : Nat) : SameIds ctx (ctx.downgrade c) := by
+  obtain ⟨⟨pid, pact⟩, sec⟩ := ctx
+  unfold KCtx.downgrade SameIds
+  by_cases hp : pid = c
+  · simp [hp, Handle.close]
+  · cases sec with
+    | none => simp [hp]
+    | some s => by_cases hs : s.id = c <;> simp [hp, hs, Handle.close]
+
+theorem sameIds_tryUpgrade (ctx : KCtx) (c : Nat) (up : Bool) : SameIds ctx (ctx.tryUpgrade c up) := by
+  obtain ⟨⟨pid, pact⟩, sec⟩ := ctx
+  unfold KCtx.tryUpgrade SameIds
+  by_cases hp : pid = c
+  · simp only [hp, if_true, Handle.tryUpgrade]
+    split <;> simp
+  · cases sec with
+    | none => simp [hp]
+    | some s =>
+      by_cases hs : s.id = c
+      · simp only [hp, hs, if_true, if_false, Handle.tryUpgrade]
+        split <;> simp [hs]
+      · simp [hp, hs]
+
+theorem sameIds_primaryUp (ctx : KCtx) (up : Bool) : SameIds ctx { ctx with primary := ctx.primary.tryUpgrade up } := by
+  unfold SameIds Handle.tryUpgrade
+  split <;> simp
+
+theorem tryUpgrade_other (ctx : KCtx) (c d : Nat) (up : Bool) (h : d ≠ c) :
+    ctxHolds (ctx.tryUpgrade d up) c = ctxHolds ctx c := by
+  obtain ⟨⟨pid, pact⟩, sec⟩ := ctx
+  unfold KCtx.tryUpgrade ctxHolds
+  by_cases hp : pid = d
+  · have : ¬ pid = c := fun h' => h (hp ▸ h')
+    subst hp
+    simp only [if_true, Handle.tryUpgrade]
+    cases pact <;> simp [this]
+  · cases sec with
+    | none => simp [hp]
+    | some s =>
+      obtain ⟨sid, sact⟩ := s
+      by_cases hs : sid = d
+      · have : ¬ sid = c := fun h' => h (hs ▸ h')
+        subst hs
+        simp only [hp, if_true, if_false, Handle.tryUpgrade]
+        cases sact <;> simp [this]
+      · simp [hp, hs]
+
+theorem primaryUp_other (ctx : KCtx) (c : Nat) (up : Bool) (h : ctx.primary.id ≠ c) :
+    ctxHolds { ctx with primary := ctx.primary.tryUpgrade up } c = ctxHolds ctx c := by
+  unfold ctxHolds Handle.tryUpgrade
+  split <;> simp [h]
+
+theorem ctxHolds_pos_has (ctx : KCtx) (c : Nat) (h : 0 < ctxHolds ctx c) : ctxHas ctx c := by
+  obtain ⟨⟨pid, pact⟩, sec⟩ := ctx
+  unfold ctxHolds at h
+  unfold ctxHas
+  by_cases hp : pid = c
+  · exact Or.inl hp
+  · cases sec with
+    | none => simp [hp] at h
+    | some s =>
+      by_cases hs : s.id = c
+      · exact Or.inr ⟨s, rfl, hs⟩
+      · simp [hp, hs] at h
+
+theorem sum_pos_iff (l : List Nat) : 0 < l.sum ↔ ∃ x ∈ l, 0 < x := by
+  induction l with
+  | nil => simp
+  | cons a t ih =>
+    simp only [List.sum_cons, List.mem_cons, exists_eq_or_imp]
+    rw [← ih]; omega
+
+theorem holds_pos_iff (s : Svc) (c : Nat) : 0 < s.holds c ↔ ∃ e ∈ s.conns, 0 < ctxHolds e.2 c := by
+  rw [holds_eq, sum_pos_iff]
+  simp only [List.mem_map]
+  constructor
+  · rintro ⟨x, ⟨e, he, rfl⟩, hx⟩; exact ⟨e, he, hx⟩
+  · rintro ⟨e, he, hx⟩; exact ⟨_, ⟨e, he, rfl⟩, hx⟩
+
+theorem downgradeAll_fold_ids (keys : List Nat) : ∀ (conns : List (Nat × KCtx)),
+    ∀ e' ∈ keys.foldl downgradeAll conns, ∃ e ∈ conns, e'.1 = e.1 ∧ SameIds e.2 e'.2 := by
+  induction keys with
+  | nil => intro conns e' he'; exact ⟨e', he', rfl, SameIds.rfl' _⟩
+  | cons d rest ih =>
+    intro conns e' he'
+    simp only [List.foldl] at he'
+    obtain ⟨e1, he1, hk, hs⟩ := ih _ e' he'
+    simp only [downgradeAll, List.mem_map] at he1
+    obtain ⟨e0, he0, rfl⟩ := he1
+    exact ⟨e0, he0, hk, (sameIds_downgrade _ _).trans hs⟩
+
+/-! ### keys of the connection map are unique -/
+
+def KeysOk (m : List (Nat × KCtx)) : Prop := ∀ e ∈ m, aget m e.1 = some e.2
+
+theorem keys_aput {m : List (Nat × KCtx)} (h : KeysOk m) (p : Nat) (v : KCtx) : KeysOk (aput m p v) := by
+  intro e he
+  rw [aget_aput]
+  rcases (mem_aput _ _ _ _).mp he with rfl | ⟨he, hk⟩
+  · simp
+  · simp only [hk, if_false]; exact h e he
+
+theorem keys_aremove {m : List (Nat × KCtx)} (h : KeysOk m) (p : Nat) : KeysOk (aremove m p) := by
+  intro e he
+  rw [aget_aremove]
+  obtain ⟨he, hk⟩ := (mem_aremove _ _ _).mp he
+  simp only [hk, if_false]; exact h e he
+
+theorem aget_map (f : KCtx → KCtx) (m : List (Nat × KCtx)) (k : Nat) :
+    aget (m.map fun e => (e.1, f e.2)) k = (aget m k).map f := by
+  induction m with
+  | nil => rfl
+  | cons a t ih =>
+    obtain ⟨k', v⟩ := a
+    by_cases hk : k' = k
+    · simp [aget, hk]
+    · simp only [List.map_cons, aget, hk, if_false]; exact ih
+
+theorem keys_downgradeAll {m : List (Nat × KCtx)} (h : KeysOk m) (d : Nat) : KeysOk (downgradeAll m d) := by
+  intro e he
+  unfold downgradeAll at he ⊢
+  rw [aget_map (fun x => x.downgrade d)]
+  obtain ⟨e0, he0, rfl⟩ := List.mem_map.mp he
+  simp only []
+  rw [h e0 he0]; rfl
+
+theorem keys_fold (keys : List Nat) : ∀ m : List (Nat × KCtx), KeysOk m → KeysOk (keys.foldl downgradeAll m) := by
+  induction keys with
+  | nil => intro m h; exact h
+  | cons d rest ih => intro m h; exact ih _ (keys_downgradeAll h d)
+
+/-! ### one protocol's invariant -/
+
+structure SvcInv (peer : Nat → Nat) (now : Nat) (svc : Svc) : Prop where
+  keys : KeysOk svc.conns
+  distinct : ∀ e ∈ svc.conns, Distinct e.2
+  peerOk : ∀ e ∈ svc.conns, ∀ c, ctxHas e.2 c → peer c = e.1
+  tr : TrackerOk svc.T now svc.tr
+  /-- an active handle is always tracked -/
+  held : ∀ c, 0 < svc.holds c → aget svc.tr.last c ≠ none
+
+theorem mem_conns_holds (s : Svc) (e : Nat × KCtx) (he : e ∈ s.conns) (c : Nat) (h : 0 < ctxHolds e.2 c) :
+    0 < s.holds c := (holds_pos_iff s c).mpr ⟨e, he, h⟩
+
+/-- Substream activity on `c` together with replacing peer `p`'s context. -/
+theorem inv_aput_activity {peer : Nat → Nat} {now : Nat} {s : Svc} (h : SvcInv peer now s) (p c : Nat) (ctx' : KCtx)
+    (hd : Distinct ctx') (hpeer : ∀ c', ctxHas ctx' c' → peer c' = p)
+    (hh : ∀ c', c' ≠ c → 0 < ctxHolds ctx' c' → 0 < s.holds c') :
+    SvcInv peer now { s with tr := s.tr.activity c now s.T, conns := aput s.conns p ctx' } := by
+  constructor
+  · exact keys_aput h.keys p ctx'
+  · intro e he
+    rcases (mem_aput _ _ _ _).mp he with rfl | ⟨he, _⟩
+    · exact hd
+    · exact h.distinct e he
+  · intro e he
+    rcases (mem_aput _ _ _ _).mp he with rfl | ⟨he, _⟩
+    · exact hpeer
+    · exact h.peerOk e he
+  · exact activity_ok _ _ _ _ h.tr
+  · intro c' hpos
+    show aget (s.tr.activity c now s.T).last c' ≠ none
+    rw [activity_last]
+    by_cases hc : c' = c
+    · simp [hc]
+    · simp only [hc, if_false]
+      obtain ⟨e, he, hpe⟩ := (holds_pos_iff _ c').mp hpos
+      rcases (mem_aput _ _ _ _).mp he with rfl | ⟨he, _⟩
+      · exact h.held c' (hh c' hc hpe)
+      · exact h.held c' (mem_conns_holds s e he c' hpe)
+
+theorem inv_activity_only {peer : Nat → Nat} {now : Nat} {s : Svc} (h : SvcInv peer now s) (c : Nat) :
+    SvcInv peer now { s with tr := s.tr.activity c now s.T } := by
+  refine ⟨h.keys, h.distinct, h.peerOk, activity_ok _ _ _ _ h.tr, ?_⟩
+  intro c' hpos
+  show aget (s.tr.activity c now s.T).last c' ≠ none
+  rw [activity_last]
+  by_cases hc : c' = c
+  · simp [hc]
+  · simp only [hc, if_false]; exact h.held c' hpos
+
+theorem hasId_aput (s : Svc) (tr : Tracker) (p : Nat) (ctx' : KCtx) (c' : Nat)
+    (h : Svc.hasId { s with tr := tr, conns := aput s.conns p ctx' } c') : ctxHas ctx' c' ∨ s.hasId c' := by
+  obtain ⟨e, he, hc⟩ := h
+  rcases (mem_aput _ _ _ _).mp he with rfl | ⟨he, _⟩
+  · exact Or.inl hc
+  · exact Or.inr ⟨e, he, hc⟩
+
+theorem onEstablished_inv {peer : Nat → Nat} {now : Nat} (s : Svc) (p c : Nat) (h : SvcInv peer now s)
+    (hp : peer c = p) (hfresh : ¬ s.hasId c) :
+    SvcInv peer now (s.onEstablished p c now).1 ∧
+    (∀ c', (s.onEstablished p c now).1.hasId c' → s.hasId c' ∨ c' = c) := by
+  unfold Svc.onEstablished
+  cases hg : aget s.conns p with
+  | none =>
+    simp only []
+    constructor
+    · apply inv_aput_activity h p c
+      · intro x hx; cases hx
+      · intro c' hc'
+        rcases hc' with hc' | ⟨x, hx, _⟩
+        · simp only at hc'; rw [← hc']; exact hp
+        · cases hx
+      · intro c' hne hpos
+        exfalso
+        unfold ctxHolds at hpos
+        have : ¬ c = c' := fun e => hne e.symm
+        simp [this] at hpos
+    · intro c' hc'
+      rcases hasId_aput s _ p _ c' hc' with hc' | hc'
+      · right
+        rcases hc' with hc' | ⟨x, hx, _⟩
+        · exact hc'.symm
+        · cases hx
+      · exact Or.inl hc'
+  | some ctx =>
+    have hmem := aget_mem _ _ _ hg
+    simp only []
+    cases hsec : ctx.secondary with
+    | some x => simp only []; exact ⟨h, fun c' hc' => Or.inl hc'⟩
+    | none =>
+      simp only []
+      have hpc : ctx.primary.id ≠ c := fun e => hfresh ⟨(p, ctx), hmem, Or.inl e⟩
+      constructor
+      · apply inv_aput_activity h p c
+        · intro x hx
+          simp only [Option.some.injEq] at hx
+          subst hx
+          exact fun e => hpc e.symm
+        · intro c' hc'
+          rcases hc' with hc' | ⟨x, hx, hxc⟩
+          · exact h.peerOk _ hmem c' (Or.inl hc')
+          · simp only [Option.some.injEq] at hx
+            subst hx; simp only at hxc; rw [← hxc]; exact hp
+        · intro c' hne hpos
+          apply mem_conns_holds s _ hmem c'
+          have : ¬ c = c' := fun e => hne e.symm
+          unfold ctxHolds at hpos ⊢
+          simp only [this, false_and, if_false, Nat.add_zero] at hpos
+          simp only [hsec, Nat.add_zero]
+          exact hpos
+      · intro c' hc'
+        rcases hasId_aput s _ p _ c' hc' with hc' | hc'
+        · rcases hc' with hc' | ⟨x, hx, hxc⟩
+          · exact Or.inl ⟨(p, ctx), hmem, Or.inl hc'⟩
+          · simp only [Option.some.injEq] at hx
+            subst hx; exact Or.inr hxc.symm
+        · exact Or.inl hc'
+
+/-- A `ConnectionClosed` for `c` leaves no handle of `c` behind (and forgets `c`). -/
+theorem inv_closed {peer : Nat → Nat} {now : Nat} {s : Svc} (h : SvcInv peer now s) (c : Nat) (conns' : List (Nat × KCtx))
+    (h0 : KeysOk conns')
+    (h1 : ∀ e ∈ conns', Distinct e.2 ∧ ∀ c', ctxHas e.2 c' → peer c' = e.1)
+    (h2 : ∀ e ∈ conns', ∀ c', 0 < ctxHolds e.2 c' → c' ≠ c ∧ 0 < s.holds c') :
+    SvcInv peer now { s with tr := s.tr.closed c, conns := conns' } := by
+  refine ⟨h0, fun e he => (h1 e he).1, fun e he => (h1 e he).2, closed_ok _ _ _ _ h.tr, ?_⟩
+  intro c' hpos
+  obtain ⟨e, he, hpe⟩ := (holds_pos_iff _ c').mp hpos
+  obtain ⟨hne, hold⟩ := h2 e he c' hpe
+  show aget (s.tr.closed c).last c' ≠ none
+  rw [closed_last]; simp only [hne, if_false]
+  exact h.held c' hold
+
+theorem onClosed_inv {peer : Nat → Nat} {now : Nat} (s : Svc) (p c : Nat) (h : SvcInv peer now s) (hp : peer c = p) :
+    SvcInv peer now (s.onClosed p c).1 ∧ (∀ c', (s.onClosed p c).1.hasId c' → s.hasId c') ∧
+    (s.onClosed p c).1.holds c = 0 := by
+  -- entries of other peers never hold `c`
+  have hother : ∀ e ∈ s.conns, e.1 ≠ p → (Distinct e.2 ∧ ∀ c', ctxHas e.2 c' → peer c' = e.1) ∧
+      ∀ c', 0 < ctxHolds e.2 c' → c' ≠ c ∧ 0 < s.holds c' := by
+    intro e he hne
+    refine ⟨⟨h.distinct e he, h.peerOk e he⟩, fun c' hpos => ⟨?_, mem_conns_holds s e he c' hpos⟩⟩
+    intro hcc; subst hcc
+    exact hne ((h.peerOk e he c' (ctxHolds_pos_has _ _ hpos)).symm.trans hp)
+  have hzero : ∀ (conns' : List (Nat × KCtx)), (∀ e ∈ conns', ∀ c', 0 < ctxHolds e.2 c' → c' ≠ c ∧ 0 < s.holds c') →
+      Svc.holds { s with tr := s.tr.closed c, conns := conns' } c = 0 := by
+    intro conns' h2
+    by_cases hz : Svc.holds { s with tr := s.tr.closed c, conns := conns' } c = 0
+    · exact hz
+    · obtain ⟨e, he, hpe⟩ := (holds_pos_iff _ c).mp (Nat.pos_of_ne_zero hz)
+      exact absurd rfl (h2 e he c hpe).1
+  unfold Svc.onClosed
+  simp only []
+  cases hg : aget s.conns p with
+  | none =>
+    simp only []
+    have h2 : ∀ e ∈ s.conns, ∀ c', 0 < ctxHolds e.2 c' → c' ≠ c ∧ 0 < s.holds c' :=
+      fun e he => (hother e he (aget_none_key _ _ hg e he)).2
+    exact ⟨inv_closed h c s.conns h.keys (fun e he => ⟨h.distinct e he, h.peerOk e he⟩) h2,
+      fun c' hc' => hc', hzero _ h2⟩
+  | some ctx =>
+    have hmem := aget_mem _ _ _ hg
+    simp only []
+    by_cases hpc : ctx.primary.id = c
+    · simp only [hpc, if_true]
+      cases hsec : ctx.secondary with
+      | none =>
+        simp only []
+        have h2 : ∀ e ∈ aremove s.conns p, ∀ c', 0 < ctxHolds e.2 c' → c' ≠ c ∧ 0 < s.holds c' :=
+          fun e he => (hother e ((mem_aremove _ _ _).mp he).1 ((mem_aremove _ _ _).mp he).2).2
+        refine ⟨inv_closed h c _ (keys_aremove h.keys p) (fun e he =>
+            (hother e ((mem_aremove _ _ _).mp he).1 ((mem_aremove _ _ _).mp he).2).1) h2, ?_, hzero _ h2⟩
+        rintro c' ⟨e, he, hc'⟩
+        exact ⟨e, ((mem_aremove _ _ _).mp he).1, hc'⟩
+      | some x =>
+        simp only []
+        have hxc : x.id ≠ c := fun e => h.distinct _ hmem x hsec (e.trans hpc.symm)
+        have h2 : ∀ e ∈ aput s.conns p ⟨x, none⟩, ∀ c', 0 < ctxHolds e.2 c' → c' ≠ c ∧ 0 < s.holds c' := by
+          intro e he
+          rcases (mem_aput _ _ _ _).mp he with rfl | ⟨he, hk⟩
+          · intro c' hpos
+            have hxid : x.id = c' ∧ x.active = true := by
+              unfold ctxHolds at hpos
+              by_cases hh : x.id = c' ∧ x.active = true
+              · exact hh
+              · simp [hh] at hpos
+            refine ⟨fun e => hxc (hxid.1.trans e), mem_conns_holds s _ hmem c' ?_⟩
+            unfold ctxHolds
+            simp only [hsec, hxid, and_self, if_true]
+            omega
+          · exact (hother e he hk).2
+        refine ⟨inv_closed h c _ (keys_aput h.keys p _) ?_ h2, ?_, hzero _ h2⟩
+        · intro e he
+          rcases (mem_aput _ _ _ _).mp he with rfl | ⟨he, hk⟩
+          · refine ⟨fun y hy => (by cases hy), fun c' hc' => ?_⟩
+            rcases hc' with hc' | ⟨y, hy, _⟩
+            · exact h.peerOk _ hmem c' (Or.inr ⟨x, hsec, hc'⟩)
+            · cases hy
+          · exact (hother e he hk).1
+        · intro c' hc'
+          rcases hasId_aput s _ p _ c' hc' with hc' | hc'
+          · rcases hc' with hc' | ⟨y, hy, _⟩
+            · exact ⟨_, hmem, Or.inr ⟨x, hsec, hc'⟩⟩
+            · cases hy
+          · exact hc'
+    · simp only [hpc, if_false]
+      have h2 : ∀ e ∈ aput s.conns p ⟨ctx.primary, none⟩, ∀ c', 0 < ctxHolds e.2 c' → c' ≠ c ∧ 0 < s.holds c' := by
+        intro e he
+        rcases (mem_aput _ _ _ _).mp he with rfl | ⟨he, hk⟩
+        · intro c' hpos
+          have hxid : ctx.primary.id = c' ∧ ctx.primary.active = true := by
+            unfold ctxHolds at hpos
+            by_cases hh : ctx.primary.id = c' ∧ ctx.primary.active = true
+            · exact hh
+            · simp [hh] at hpos
+          refine ⟨fun e => hpc (hxid.1.trans e), mem_conns_holds s _ hmem c' ?_⟩
+          unfold ctxHolds
+          simp only [hxid, and_self, if_true]
+          omega
+        · exact (hother e he hk).2
+      refine ⟨inv_closed h c _ (keys_aput h.keys p _) ?_ h2, ?_, hzero _ h2⟩
+      · intro e he
+        rcases (mem_aput _ _ _ _).mp he with rfl | ⟨he, hk⟩
+        · refine ⟨fun y hy => (by cases hy), fun c' hc' => ?_⟩
+          rcases hc' with hc' | ⟨y, hy, _⟩
+          · exact h.peerOk _ hmem c' (Or.inl hc')
+          · cases hy
+        · exact (hother e he hk).1
+      · intro c' hc'
+        rcases hasId_aput s _ p _ c' hc' with hc' | hc'
+        · rcases hc' with hc' | ⟨y, hy, _⟩
+          · exact ⟨_, hmem, Or.inl hc'⟩
+          · cases hy
+        · exact hc'
+
+/-! ### what keeps a handle active -/
+
+theorem primaryUp_ge (ctx : KCtx) (c : Nat) :
+    ctxHolds ctx c ≤ ctxHolds { ctx with primary := ctx.primary.tryUpgrade true } c := by
+  obtain ⟨⟨pid, pact⟩, sec⟩ := ctx
+  unfold ctxHolds Handle.tryUpgrade
+  cases pact
+  · simp only [Bool.false_eq_true, and_false, if_false, and_true]
+    split <;> omega
+  · simp
+
+theorem tryUpgrade_ge (ctx : KCtx) (c d : Nat) : ctxHolds ctx c ≤ ctxHolds (ctx.tryUpgrade d true) c := by
+  by_cases hcd : d = c
+  · subst hcd
+    obtain ⟨⟨pid, pact⟩, sec⟩ := ctx
+    unfold KCtx.tryUpgrade ctxHolds Handle.tryUpgrade
+    by_cases hp1 : pid = d
+    · cases pact <;> cases sec <;> simp [hp1]
+      all_goals split <;> omega
+    · cases sec with
+      | none => simp [hp1]
+      | some x =>
+        obtain ⟨xid, xact⟩ := x
+        by_cases hx : xid = d
+        · cases xact <;> simp [hp1, hx]
+        · simp [hp1, hx]
+  · rw [tryUpgrade_other ctx c d true hcd]; exact Nat.le_refl _
+
+theorem holds_aput_keeps (s : Svc) (hk : KeysOk s.conns) (tr : Tracker) (p : Nat) (ctx' : KCtx) (c' : Nat)
+    (hctx : ∀ ctx, aget s.conns p = some ctx → 0 < ctxHolds ctx c' → 0 < ctxHolds ctx' c')
+    (hpos : 0 < s.holds c') : 0 < Svc.holds { s with tr := tr, conns := aput s.conns p ctx' } c' := by
+  obtain ⟨e, he, hpe⟩ := (holds_pos_iff s c').mp hpos
+  apply (holds_pos_iff _ c').mpr
+  by_cases hkp : e.1 = p
+  · refine ⟨(p, ctx'), (mem_aput _ _ _ _).mpr (Or.inl rfl), ?_⟩
+    exact hctx e.2 (hkp ▸ hk e he) hpe
+  · exact ⟨e, (mem_aput _ _ _ _).mpr (Or.inr ⟨he, hkp⟩), hpe⟩
+
+theorem onEstablished_keeps (s : Svc) (hk : KeysOk s.conns) (p c now c' : Nat) (hpos : 0 < s.holds c') :
+    0 < (s.onEstablished p c now).1.holds c' := by
+  unfold Svc.onEstablished
+  cases hg : aget s.conns p with
+  | none =>
+    simp only []
+    exact holds_aput_keeps s hk _ p _ c' (fun ctx hc => by rw [hg] at hc; cases hc) hpos
+  | some ctx =>
+    simp only []
+    cases hsec : ctx.secondary with
+    | some x => exact hpos
+    | none =>
+      simp only []
+      apply holds_aput_keeps s hk _ p _ c' _ hpos
+      intro ctx0 hc0 hp0
+      rw [hg] at hc0; cases hc0
+      unfold ctxHolds at hp0 ⊢
+      simp only [hsec, Nat.add_zero] at hp0
+      simp only []; omega
+
+theorem openSubstream_inv {peer : Nat → Nat} {now : Nat} (s : Svc) (p : Nat) (up : Bool) (send : SendRes) (sid : Nat)
+    (h : SvcInv peer now s) :
+    SvcInv peer now (s.openSubstream p now up send sid).1 ∧
+    (∀ c', (s.openSubstream p now up send sid).1.hasId c' → s.hasId c') ∧
+    (∀ c', 0 < s.holds c' → 0 < (s.openSubstream p now up send sid).1.holds c') := by
+  unfold Svc.openSubstream
+  cases hg : aget s.conns p with
+  | none => exact ⟨h, fun _ hc => hc, fun _ hc => hc⟩
+  | some ctx =>
+    have hmem := aget_mem _ _ _ hg
+    simp only []
+    by_cases hu : (ctx.primary.active || up) = false
+    · simp only [hu, if_true]; exact ⟨h, fun _ hc => hc, fun _ hc => hc⟩
+    · simp only [hu, if_false]
+      have key : SvcInv peer now (if s.ka = true then
+            { s with tr := s.tr.activity ctx.primary.id now s.T,
+                     conns := aput s.conns p { ctx with primary := ctx.primary.tryUpgrade true } } else s) ∧
+          (∀ c', Svc.hasId (if s.ka = true then
+            { s with tr := s.tr.activity ctx.primary.id now s.T,
+                     conns := aput s.conns p { ctx with primary := ctx.primary.tryUpgrade true } } else s) c' → s.hasId c') ∧
+          (∀ c', 0 < s.holds c' → 0 < Svc.holds (if s.ka = true then
+            { s with tr := s.tr.activity ctx.primary.id now s.T,
+                     conns := aput s.conns p { ctx with primary := ctx.primary.tryUpgrade true } } else s) c') := by
+        by_cases hka : s.ka = true
+        · rw [if_pos hka]
+          have hsame := sameIds_primaryUp ctx true
+          refine ⟨?_, ?_, ?_⟩
+          · apply inv_aput_activity h p ctx.primary.id
+            · exact hsame.distinct (h.distinct _ hmem)
+            · intro c' hc'; exact h.peerOk _ hmem c' ((hsame.has c').mp hc')
+            · intro c' hne hpos
+              rw [primaryUp_other ctx c' true (fun e => hne e.symm)] at hpos
+              exact mem_conns_holds s _ hmem c' hpos
+          · intro c' hc'
+            rcases hasId_aput s _ p _ c' hc' with hc' | hc'
+            · exact ⟨_, hmem, (hsame.has c').mp hc'⟩
+            · exact hc'
+          · intro c' hpos
+            apply holds_aput_keeps s h.keys _ p _ c' _ hpos
+            intro ctx0 hc0 hp0
+            rw [hg] at hc0; cases hc0
+            have := primaryUp_ge ctx c'
+            omega
+        · rw [if_neg hka]; exact ⟨h, fun _ hc => hc, fun _ hc => hc⟩
+      cases send <;> exact key
+
+theorem onSubstreamOpened_inv {peer : Nat → Nat} {now : Nat} (s : Svc) (p c : Nat) (h : SvcInv peer now s) :
+    SvcInv peer now (s.onSubstreamOpened p c now) ∧
+    (∀ c', (s.onSubstreamOpened p c now).hasId c' → s.hasId c') ∧
+    (∀ c', 0 < s.holds c' → 0 < (s.onSubstreamOpened p c now).holds c') := by
+  unfold Svc.onSubstreamOpened
+  by_cases hka : s.ka = true
+  · rw [if_pos hka]
+    simp only []
+    cases hg : aget s.conns p with
+    | none =>
+      simp only []
+      exact ⟨inv_activity_only h c, fun _ hc => hc, fun _ hc => hc⟩
+    | some ctx =>
+      have hmem := aget_mem _ _ _ hg
+      simp only []
+      have hsame := sameIds_tryUpgrade ctx c true
+      refine ⟨?_, ?_, ?_⟩
+      · apply inv_aput_activity h p c
+        · exact hsame.distinct (h.distinct _ hmem)
+        · intro c' hc'; exact h.peerOk _ hmem c' ((hsame.has c').mp hc')
+        · intro c' hne hpos
+          rw [tryUpgrade_other ctx c' c true (fun e => hne e.symm)] at hpos
+          exact mem_conns_holds s _ hmem c' hpos
+      · intro c' hc'
+        rcases hasId_aput s _ p _ c' hc' with hc' | hc'
+        · exact ⟨_, hmem, (hsame.has c').mp hc'⟩
+        · exact hc'
+      · intro c' hpos
+        apply holds_aput_keeps s h.keys _ p _ c' _ hpos
+        intro ctx0 hc0 hp0
+        rw [hg] at hc0; cases hc0
+        have := tryUpgrade_ge ctx c' c
+        omega
+  · rw [if_neg hka]; exact ⟨h, fun _ hc => hc, fun _ hc => hc⟩
+
+theorem pollKeepAlive_inv {peer : Nat → Nat} {now : Nat} (s : Svc) (h : SvcInv peer now s) :
+    SvcInv peer now (s.pollKeepAlive now) ∧ (∀ c', (s.pollKeepAlive now).hasId c' → s.hasId c') := by
+  have hids := downgradeAll_fold_ids (pollTimers s.T now s.tr).2 s.conns
+  refine ⟨⟨keys_fold _ _ h.keys, ?_, ?_, pollTimers_ok _ _ _ h.tr, ?_⟩, ?_⟩
+  · intro e' he'
+    obtain ⟨e, he, _, hs⟩ := hids e' he'
+    exact hs.distinct (h.distinct e he)
+  · intro e' he' c' hc'
+    obtain ⟨e, he, hk, hs⟩ := hids e' he'
+    rw [hk]; exact h.peerOk e he c' ((hs.has c').mp hc')
+  · intro c' hpos
+    rw [poll_holds s c' now h.distinct] at hpos
+    by_cases hin : c' ∈ (pollTimers s.T now s.tr).2
+    · simp [hin] at hpos
+    · simp only [hin, if_false] at hpos
+      show aget (pollTimers s.T now s.tr).1.last c' ≠ none
+      rw [(pollTimers_spec s.T now c' s.tr).2 hin]
+      exact h.held c' hpos
+  · rintro c' ⟨e', he', hc'⟩
+    obtain ⟨e, he, _, hs⟩ := hids e' he'
+    exact ⟨e, he, (hs.has c').mp hc'⟩
+
+/-- **Never early** (one protocol): a keep-alive poll takes the active handle of `c` away only if `c` has
+been idle for the whole timeout; otherwise handle and `last_activity` stay as they are. -/
+theorem pollKeepAlive_drop {peer : Nat → Nat} {now : Nat} (s : Svc) (h : SvcInv peer now s) (c : Nat)
+    (_hpos : 0 < s.holds c) :
+    ((s.pollKeepAlive now).holds c = 0 ∧ ∃ la, aget s.tr.last c = some la ∧ la + s.T ≤ now) ∨
+    ((s.pollKeepAlive now).holds c = s.holds c ∧ aget (s.pollKeepAlive now).tr.last c = aget s.tr.last c) := by
+  rw [poll_holds s c now h.distinct]
+  by_cases hin : c ∈ (pollTimers s.T now s.tr).2
+  · left
+    obtain ⟨⟨la, hla, hge⟩, _⟩ := (pollTimers_spec s.T now c s.tr).1 hin
+    have := (h.tr.tracked c la hla).1
+    exact ⟨by simp [hin], la, hla, by omega⟩
+  · right
+    exact ⟨by simp [hin], (pollTimers_spec s.T now c s.tr).2 hin⟩
+
 end Litep2pVerif.Service.KA
